@@ -145,6 +145,20 @@ func init() {
 					evalC05(c, c05Case{Dir: "fwd-shared", Name: a.Name + " / " + q.Name, M: ref.Msg{H: univ.BaseHdr, P: []ref.Payload{a.P, q.P}}, Shape: shape})
 				}
 			}
+			// shapes that are legal on the wire but that the library's own encoder refuses to produce (reverse
+			// direction only): a TLV transform attribute with an empty value, for every transform type, alone and
+			// next to other transforms
+			if c.Mine() {
+				for t := uint8(1); t <= 5; t++ {
+					for _, at := range []uint16{14, 1, 0x7fff} {
+						empty := ref.Transform{Type: t, ID: uint16(2 + t), HasAttr: true, AType: at, AVar: []byte{}}
+						for i, trs := range [][]ref.Transform{{empty}, {{Type: t, ID: 1}, empty}, {empty, {Type: t, ID: 1}}, {{Type: 1, ID: 12, HasAttr: true, TV: true, AType: 14, AValue: 128}, empty, {Type: 5, ID: 0}}} {
+							m := ref.Msg{H: univ.BaseHdr, P: []ref.Payload{{T: ref.PSA, SA: []ref.Proposal{{Num: 1, Proto: 3, SPI: univ.Pat(4, 1), Tr: trs}}}}}
+							evalC05(c, c05Case{Dir: "rev", Name: fmt.Sprintf("SA.empty-tlv=%d/%d/%d", t, at, i), M: m, LN: "none"})
+						}
+					}
+				}
+			}
 			univ.Sweeps(c.Thorough(), func(name string, m ref.Msg, fits bool) {
 				if !fits || !c.Mine() {
 					return
